@@ -48,6 +48,13 @@ def main():
         shutil.rmtree(f"/tmp/verif_dev/{os.path.basename(wt)}", ignore_errors=True)
     out = f"/verif/seeded/{sid}"
     os.makedirs(out, exist_ok=True)
+    if no_suite and os.path.exists(f"{out}/meta.json"):
+        # a re-run of the check only: keep the pinned-suite result recorded when the change was first confirmed
+        old = json.load(open(f"{out}/meta.json"))
+        for k, v in old.get("ran", {}).items():
+            if k.startswith("suite_"):
+                meta["ran"].setdefault(k, v)
+        meta["ran"]["check_rerun_after_strengthening"] = True
     shutil.copyfile(patch, f"{out}/patch.diff")
     shutil.copyfile(demo, f"{out}/demo.py")
     md = patch.replace(".diff", ".md")
@@ -55,7 +62,7 @@ def main():
         shutil.copyfile(md, f"{out}/notes.md")
     json.dump(meta, open(f"{out}/meta.json", "w"), indent=1)
     ok = (meta["ran"]["demo_without_change_exit"] == 0 and meta["ran"]["demo_with_change_exit"] != 0
-          and (no_suite or meta["ran"]["suite_exit"] == 0))
+          and meta["ran"].get("suite_exit", 0 if no_suite else 1) == 0)
     print(sid, "CONFIRMED" if ok else "NOT-CONFIRMED", "caught" if meta["caught_by"] else "MISSED", json.dumps(meta["ran"])[:600])
 
 main()
